@@ -17,7 +17,7 @@ CHECKS = {
         technique='Lean 4 proof over a hand-written executable model, tied to /repo on every run by differential correspondence (compiled Lean driver vs real code on generated inputs) and regenerated source tables; independent Python oracle searches for failing inputs',
         ref='§4 C01'),
     'C02': dict(
-        text="Theorems from the traversal invariant BuildSt.Inv (induction over the memoized post-order build of ANY heap): every reachable Buildable occurs exactly once in the invocation log, after everything it depends on; a second reference gets the memoized object without invocation; distinct instances get distinct results inside this build's own result heap; the built graph mirrors the config graph (Mirror). Correspondence: random DAGs, invocation log + identity-aware canonical result; oracle = independent reference build.",
+        text="Theorems from the traversal invariant BuildSt.Inv (induction over the memoized post-order build of ANY heap): every reachable Buildable occurs exactly once in the invocation log, after everything it depends on; a second reference gets the memoized object without invocation; distinct instances get distinct results inside this build's own result heap; the built graph mirrors the config graph (Mirror); and totality: on every acyclic configuration whose calls bind, build returns (no spurious cycle error, the fuel suffices). Correspondence: random DAGs, invocation log + identity-aware canonical result; oracle = independent reference build.",
         note=TB + "Partial: 'separate builds share no objects' and pinning of memo keys against id() reuse are exercised by the correspondence run only (identity is abstract in the model).",
         technique='Lean 4 proof over a hand-written executable model, tied to /repo on every run by differential correspondence (compiled Lean driver vs real code on generated inputs) and regenerated source tables; independent Python oracle searches for failing inputs',
         ref='§4 C02'),
@@ -62,7 +62,7 @@ CHECKS = {
         technique='Lean 4 proof over a hand-written executable model, tied to /repo on every run by differential correspondence (compiled Lean driver vs real code on generated inputs) and regenerated source tables; independent Python oracle searches for failing inputs',
         ref='§4 C10'),
     'C11': dict(
-        text='Model: the statement language of a function body (assignments, variables, literals, displays, configurable calls) with one new node per evaluated call. Theorems: each call creates exactly one node and touches nothing else; a variable used twice is one shared node; building the resulting DAG mirrors it object for object (C02 Mirror, exactly-once, distinct results). Correspondence: the SOURCE TEXT of generated functions is read into the model language and executed; the DAG must equal the one the real as_buildable returns; oracle compares real builds with real direct calls and counts invocations.',
+        text='Model: the statement language of a function body (assignments, variables, literals, displays, configurable calls) with one new node per evaluated call. Theorems: each call creates exactly one node and touches nothing else; a variable used twice is one shared node; building the resulting DAG mirrors it object for object (C02 Mirror, exactly-once, distinct results). With a second semantics of the same text, the DIRECT CALL (a call expression invokes its callable on Python's binding of the evaluated arguments), the property itself for every program of the language: direct call and as_buildable run in lock-step (same reference; call object k = configuration object k with its call made), and conversely; fdl.build of that configuration returns whenever the direct call does, and every object it makes is the direct call's object at that program point up to the one-to-one renaming of the build's memo. Correspondence: the SOURCE TEXT of generated functions is read into the model language and executed; the DAG must equal the one the real as_buildable returns; oracle compares real builds with real direct calls and counts invocations.',
         note=TB + 'Partial: the AST rewrite itself, control flow, */** splats, exempt and calls of other auto_config functions are outside the modelled subset (oracle only; evidence reports how many programs were inside).',
         technique='Lean 4 proof over a hand-written executable model, tied to /repo on every run by differential correspondence (compiled Lean driver vs real code on generated inputs) and regenerated source tables; independent Python oracle searches for failing inputs',
         ref='§4 C11'),
@@ -92,7 +92,7 @@ CHECKS = {
         technique='Lean 4 proof over a hand-written executable model, tied to /repo on every run by differential correspondence (compiled Lean driver vs real code on generated inputs) and regenerated source tables; independent Python oracle searches for failing inputs',
         ref='§4 C16'),
     'C17': dict(
-        text='The property is the absence of writes. Theorems: with the two heap effects readOnly / allocOnly every object and every path query of the input is unchanged, also after the caller edits the returned copy, for any sequence of calls. Which effect each of the 53 entry points has is checked, not proved: the correspondence encodes the input before and after every call (six configuration flavours) and compares with applyEffect; returned copies are edited.',
+        text='The property is the absence of writes. Theorems: with the two heap effects readOnly / allocOnly every object and every path query of the input is unchanged, also after the caller edits the returned copy, for any sequence of calls; the model's heap transformers (deep copy, shallow copy / cast, execution of generated code) are proved allocOnly. Which effect each of the 53 entry points has is checked, not proved: the correspondence encodes the input before and after every call (six configuration flavours) and compares with applyEffect; returned copies are edited.',
         note=TB + 'Partial by nature: membership of each API in the two effects is established on generated inputs only.',
         technique='Lean 4 proof over a hand-written executable model, tied to /repo on every run by differential correspondence (compiled Lean driver vs real code on generated inputs) and regenerated source tables; independent Python oracle searches for failing inputs',
         ref='§4 C17'),
